@@ -114,7 +114,7 @@ def gen_rows(rng, sheet, page, lang, big):
     return rows
 
 
-def check_rows(ctx, sheet, rows, hexd, hexh, files, via):
+def check_rows(ctx, sheet, rows, hexd, hexh, files, via, all_ids=None):
     cols = sheet["cols"]
     types = {t for t, _ in cols}
     for rid, subs in rows:
@@ -142,7 +142,7 @@ def check_rows(ctx, sheet, rows, hexd, hexh, files, via):
                     ctx.violation("decode", dict(sub="cell_value", type=tname(t), subrows="many" if len(subs) > 1 else "one"),
                                   dict(row_id=rid, subrow=si, column=ci, offset=o, got=str(g)[:200], expected=str(e)[:200], data_offset=sheet["data_offset"], via=via), files=files)
     # unknown ids yield nothing
-    known = {rid for rid, _ in rows}
+    known = set(all_ids) if all_ids is not None else {rid for rid, _ in rows}
     for rid in [x for x in (0, 1, 7, 2 ** 32 - 1, max(known) + 1 if max(known) < 2 ** 32 - 1 else 5, min(known) - 1 if min(known) > 0 else 3) if x not in known][:4]:
         r = ctx.call("exd.read_row", hexd, hexh, rid)
         ctx.check_mon(r, ctx._insz, files=files)
@@ -180,8 +180,46 @@ def check_exh(ctx, got, sheet, files, via):
         ctx.violation("decode", dict(sub="exh_header", via=via, fields=",".join(sorted(bad))), dict(bad=repr(bad)[:1000]), files=files)
 
 
+def large_count_case(ctx, rng):
+    """pages and schemas whose counts cross 8/16-bit limits: >= 8192 rows (index table >= 64 KiB), > 255 columns"""
+    kind = rng.choice(["many-rows", "many-rows", "many-columns"])
+    if kind == "many-rows":
+        cols = [(rng.choice([ex.T_U32, ex.T_I16, ex.T_U8]), 0), (ex.T_STRING, 4)]
+        data_offset = 8
+        n = rng.choice([8191, 8192, 8193, 9000, 20000])
+        start = rng.choice([0, 1, 100000])
+        ids = list(range(start, start + n))
+        if rng.random() < 0.5:
+            ids = sorted(rng.sample(range(start, start + 4 * n), n))
+    else:
+        ncol = rng.choice([256, 257, 300, 700])
+        cols = [(rng.choice([ex.T_U8, ex.T_I8, ex.T_BOOL]), i) for i in range(ncol)]
+        data_offset = ncol
+        ids = [0, 5, 70000]
+    sheet = dict(cols=cols, data_offset=data_offset, subrow=False, pages=[(ids[0], ids[-1] - ids[0] + 1)], langs=[0], ids={0: ids}, row_count=len(ids))
+    rows = [(rid, [[gen_value(rng, t, "") if t != ex.T_STRING else "r%d" % rid for (t, o) in cols]]) for rid in ids]
+    exh = ex.build_exh(data_offset, cols, sheet["pages"], [0], row_count=len(ids))
+    exd = ex.build_exd(data_offset, cols, rows)
+    fh = ctx.write("l.exh", exh); fd = ctx.write("l.exd", exd)
+    r = ctx.call("exh.parse", fh, input_bytes=len(exh))
+    r2 = ctx.call("exd.parse", fd, input_bytes=len(exd))
+    ctx.check_mon(r, len(exh), residual=False, files=[fh]); ctx.check_mon(r2, len(exd), residual=False, files=[fd])
+    if not (r.ok and r2.ok):
+        ctx.violation("decode", dict(sub="large_sheet_rejected", cls=kind), dict(rows=len(ids), columns=len(cols)), files=[fh])
+        return
+    check_exh(ctx, r.value["exh"], sheet, [fh], "direct")
+    ctx._insz = len(exd) + len(exh)
+    pick = sorted(set([0, 1, len(rows) - 1, len(rows) - 2, 8190, 8191, 8192, 8193] + [rng.randrange(len(rows)) for _ in range(12)]))
+    sub = [rows[i] for i in pick if i < len(rows)]
+    ctx.stats.classes["large:" + kind] += 1
+    check_rows(ctx, sheet, sub, r2.value["handle"], r.value["handle"], [fh, fd], "direct", all_ids=ids)
+    ctx.call("drop", r.value["handle"]); ctx.call("drop", r2.value["handle"])
+
+
 def shard(ctx):
     rng, P = ctx.rng, ctx.params
+    for i in range(2 if ctx.tier == "quick" else 8):
+        large_count_case(ctx, rng)
     for i in range(P["n"]):
         direct_case(ctx, rng, P)
     for i in range(P["arch"]):
